@@ -25,20 +25,17 @@ Proof.
   destruct (Z.ltb_spec (Z.of_N (N.of_nat (length file)) + -8) 0) as [_|H]; [reflexivity | lia].
 Qed.
 
-(** a trailer length that points before the start of the file: the second Seek fails *)
+(** a trailer length that points before the start of the file: the second Seek
+    fails, the constructor returns an error (and does not panic) *)
 Theorem open_bad_length fs file sched :
   (8 <= length file)%nat ->
   (Z.of_N (le_dec (firstn 4 (skipn (length file - 8) file))) + 8 > Z.of_nat (length file))%Z ->
-  read_all_src decompress fs (mk_src file sched None) = open_failed false \/
-  read_all_src decompress fs (mk_src file sched None) = open_failed true.
+  read_all_src decompress fs (mk_src file sched None) = open_failed false.
 Proof.
   intros Hlen Hbad.
-  destruct (read_all_src decompress fs (mk_src file sched None)) eqn:E.
-  revert E. unfold read_all_src.
-  destruct (open_footer fs (mk_src file sched None)) as [[fm s1]| |] eqn:Ho.
-  2: { intros <-. left. reflexivity. }
-  2: { intros <-. right. reflexivity. }
-  exfalso. revert Ho. unfold open_footer.
+  unfold read_all_src.
+  assert (Ho : open_footer fs (mk_src file sched None) = Err); [|rewrite Ho; reflexivity].
+  unfold open_footer.
   unfold bind at 1. unfold m_seek_end at 1. unfold bind at 1. rewrite op_tick_fresh. cbn [s_file].
   unfold nlen.
   destruct (Z.ltb_spec (Z.of_N (N.of_nat (length file)) + -8) 0) as [H|_]; [lia|].
@@ -55,7 +52,7 @@ Proof.
   unfold s2 in Hf3, Hfl3. cbn [s_file s_fail] in Hf3, Hfl3.
   unfold bind at 1. unfold m_seek_end. unfold bind at 1. unfold op_tick. rewrite Hfl3.
   cbn [s_file]. rewrite Hf3. unfold nlen. rewrite Hlenb.
-  destruct (Z.ltb_spec (Z.of_N (N.of_nat (length file)) + - (Z.of_N (le_dec (firstn 4 (skipn (length file - 8) file))) + 8)) 0) as [_|H]; [discriminate | lia].
+  destruct (Z.ltb_spec (Z.of_N (N.of_nat (length file)) + - (Z.of_N (le_dec (firstn 4 (skipn (length file - 8) file))) + 8)) 0) as [_|H]; [reflexivity | lia].
 Qed.
 
 End Trunc.
